@@ -69,6 +69,33 @@ def rule_fields(facts):
             nm = flow.declared(t) or flow.callee(t)
             stores.setdefault(t.dest.proj[-1][2], []).append(
                 (blk.idx, norm(("call", nm, tuple(tmr.of_operand(a) for a in t.args), blk.idx), "new_props")))
+    # private helpers: `self.reset_x()` with no other argument stores what the helper stores on every one of its paths
+    for blk in rst.calls():
+        cal = blk.term.callee
+        if cal is None or not cal.target().local or len(blk.term.args) != 1:
+            continue
+        a0 = tmr.of_operand(blk.term.args[0])
+        while isinstance(a0, tuple) and a0 and a0[0] in ("ref", "deref"):
+            a0 = a0[1]
+        if not (isinstance(a0, tuple) and a0[0] == "arg" and a0[2] == "self"):
+            continue
+        hb = facts.by_def.get(cal.target().defk)
+        if hb is None or hb is rst:
+            continue
+        tmh, ch = Terms(hb), cfg(hb)
+        hst = {}
+        for hblk in hb.blocks:
+            if hblk.cleanup or hblk.idx not in ch.reach:
+                continue
+            for s in hblk.stmts:
+                if s.k == "assign" and s.place.proj and s.place.proj[-1][0] == "field" and len(s.place.proj) == 2 and \
+                        s.place.proj[-1][4] and s.place.proj[-1][4].endswith("DecoderState"):
+                    hst.setdefault(s.place.proj[-1][2], []).append((hblk.idx, tmh.of_rvalue(s.rv, 0)))
+        for f_, lst in hst.items():
+            if all(not ch.some_path(0, [x], avoid=[bb_ for bb_, _ in lst]) for x in ch.returns) and \
+                    not any(flow.term_has(t_, lambda q: q[0] == "arg") for _, t_ in lst):
+                for _, t_ in lst:
+                    stores.setdefault(f_, []).append((blk.idx, norm(t_, "new_props")))
     # whole-array fills: `self.f.fill(v)` stores [v; N] (N from the field's type)
     ftys = {f["name"]: f["ty"] for f in adt["variants"][0]["fields"]}
     for blk in rst.calls():
